@@ -47,3 +47,27 @@ CHECKS["C17"] = dict(
     text="Metric axioms are universally quantified over pairs and triples, so the check enumerates all of them over finite catalogues and measures each result in ulps of a ~106-bit reference; coincidences (Minkowski 1/2 vs Manhattan/Euclid, identity Mahalanobis vs Euclid) and the rejection of mismatched lengths are decided on the same cases.",
     note="Tolerances (8+n) eps relative, (8+2n^2) cond eps for Mahalanobis, with >=4x measured headroom; vectors longer than 30 and covariance orders >12 not reached.",
 )
+CHECKS["C01"] = dict(
+    engine="E1",
+    technique="exhaustive enumeration of small lattice matrices (every m x n matrix with m,n<=3 over {0,1,-1,2} (5-letter thorough), symmetric lattices to 4x4 (5x5), 4xk/kx4, binary 4x4; all 3^16 ternary 4x4 in thorough) x power-of-two scales x {f64,f32} x right-hand-side catalogue, plus 18 structured families to n=12 (40) in six aspects; exact-arithmetic (Bareiss) classification and residual / orthogonality / triangularity / least-squares / minimum-norm oracle",
+    text="Every data-selected branch of the four factorizations (pivoting, sign choice, zero-scale, deflation, wide path, rank deficiency) is reached by some small lattice matrix; exact integer arithmetic decides singularity, rank, definiteness, conditioning and the null space, so the oracle never relies on the code under test. Residual tolerances are c*n*eps*norm with >=4x measured headroom.",
+    note="Dense random 40x40 inputs are not reached (only structured families up to n=40); tolerances calibrated on the tree with the D1-D3 defects repaired.",
+)
+CHECKS["C02"] = dict(
+    engine="E1",
+    technique="exhaustive enumeration of symmetric and general lattice matrices (n<=3 over a 5-letter alphabet, n=4 ternary, n=5 in thorough) x scales x {f64,f32}, plus structured families to n=12 (30): diagonal, block-diagonal, repeated eigenvalues, Toeplitz, cyclic-shift permutations, companion, rotation blocks, badly balanced, circulants; trace / trace-of-square / eigenpair-residual / orthonormality / closed-form-spectrum oracle",
+    text="Deflation, exceptional shifts, complex-pair back-substitution and balancing are reached by specific small or structured matrices (cyclic permutations, nilpotent and defective lattice matrices) that a random test never produces; the oracle uses only backward-stable identities (traces are exact for integer inputs) so defective matrices are judged fairly.",
+    note="General-solver eigenvector bound 256*n*eps*max(1,(n/4)^2) (non-normal growth of elmhes); dense random n=30 not reached.",
+)
+CHECKS["C03"] = dict(
+    engine="E1+E2",
+    technique="exhaustive enumeration of every BaseMatrix/BaseVector/stats/high-order operation over all shapes <=8x8 (12x12) x 20 structured fills + every ternary fill up to 9 (14) cells, every ordered pair of shapes for binary operations, every slice/reshape/take argument, softmax and offset-variance alphabets, against a row-major reference model; explicit-state BFS over operation chains (18 actions, depth 4 (5)) on the real matrix object",
+    text="Index-coded entries make any row/column-major mix-up, swapped dimension or wrong transpose flag visible; the chain search starts operations from non-initial states (reshape after transpose, stack after slice) and checks the logical view and in-place vs copying variants in every reachable state.",
+    note="Shapes above 12x12 and chains longer than 5 are not reached; argmax ties accept any maximiser.",
+)
+CHECKS["C11"] = dict(
+    engine="E1",
+    technique="exhaustive enumeration of naive-Bayes training sets over each variant's small alphabet (n<=4 (5) rows, p<=2, every labelling, 4 label-value maps, alpha in {0.01,1,5}, priors on/off, binarisation thresholds), structured families to 120 rows / 8 features / 5 classes, and offset lattices; closed-form sufficient-statistics and MAP oracle",
+    text="Fitted statistics are compared with closed forms written from the statement (exact rational, then ln); predictions must be in the arg-max set of the reference MAP score (ties: any). Non-contiguous and negative label values, empty categorical classes, skewed priors and user priors are all enumerated.",
+    note="Rows with values unseen in training are compared but not judged (outside the statement); Gaussian instances with zero within-class variance are outside 'valid training set'.",
+)
